@@ -765,7 +765,7 @@ func runC14Type(c *Ctx) {
 				// base is the element looked up in m.Inputs with the range key of c.Inputs
 				if ex, ok := base.(*ssa.Extract); ok {
 					if lk, ok := ex.Tuple.(*ssa.Lookup); ok {
-						tf, _ := fieldLoad(lk.X)
+						tf := fieldLoadOrNil(lk.X)
 						rf, idx := rangePart(lk.Index)
 						if tf == "ReusableWorkflowMetadata.Inputs" && rf == "WorkflowCall.Inputs" && idx == 1 {
 							okRecv = true
@@ -806,4 +806,28 @@ func isRangeIndexCond(bo *ssa.BinOp) bool {
 	}
 	_, isPhi := add.X.(*ssa.Phi)
 	return isPhi
+}
+
+// fieldLoadOrNil: the field a value is loaded from, also when the value is a join of that load with nil (a table that is
+// left nil when its owner is absent: a lookup in the nil table finds nothing).
+func fieldLoadOrNil(v ssa.Value) string {
+	if f, _ := fieldLoad(v); f != "" {
+		return f
+	}
+	ph, ok := v.(*ssa.Phi)
+	if !ok {
+		return ""
+	}
+	field := ""
+	for _, e := range ph.Edges {
+		if k, isConst := e.(*ssa.Const); isConst && k.IsNil() {
+			continue
+		}
+		f, _ := fieldLoad(e)
+		if f == "" || (field != "" && f != field) {
+			return ""
+		}
+		field = f
+	}
+	return field
 }
